@@ -1,5 +1,6 @@
 (* Classified programs compute their reference (list) semantics `Denote.denote` in both engines:
-   the identical sequence for class E, the same multiset for class P.
+   the identical sequence for class E, the same multiset for class P, the same multiset of groups
+   with every group's values as a multiset for class D.
    Route: every classified node run on ONE partition holding exactly the reference rows returns
    the reference meaning of the node (`dnode`, Proofs/EngineClassify.v); node-level partition
    independence (Proofs/EngineEquiv.v) transfers this to any partitioning of rows known only up
@@ -43,15 +44,30 @@ Lemma node_single_denote : forall sh i t c b t' c' rows,
     exists out, par_bnode sh i b [(t, rows)] = Ok [(t', out)] /\ rel c' out (dnode b rows).
 Proof.
   intros sh i t c b t' c' rows Hsh Hcls.
-  destruct Hcls as [t c ops t' Hew Htags | t t' | t c cb tg t' Hlaw | t c cb tp t' Hlaw
-                    | t c cb lifted t' fanout Hlaw].
-  - (* element-wise block *)
+  assert (Hstateless : forall ops c0 c1, node_cls t c0 (BStateless ops) t' c1 ->
+             exists out, par_bnode sh i (BStateless ops) [(t, rows)] = Ok [(t', out)] /\
+                         rel c1 out (dnode (BStateless ops) rows)).
+  { intros ops c0 c1 Hn. destruct (node_stateless_ew _ _ _ _ _ Hn) as [Hew Htags].
     exists (sem_ops ops rows). cbn [par_bnode]. unfold par_stateless. cbn [oall].
     rewrite (apply_ops_ew ops t t' rows Hew Htags). cbn [obind dnode].
-    split; [reflexivity|apply rel_refl].
+    split; [reflexivity|apply rel_refl]. }
+  destruct Hcls as [t c ops t' Hfl Hew Htags | t ops t' Hdd Htags
+                    | t ops1 o ops2 t' Hdd Hdp Hew Htags | t t' | t t'
+                    | t c cb tg t' Hfl Hlaw | t c cb tp t' Hlaw
+                    | t c cb lifted t' fanout Hfl Hlaw].
+  - (* element-wise block *)
+    apply (Hstateless ops c c). apply nc_stateless; assumption.
+  - apply (Hstateless ops D D). apply nc_stateless_dd; assumption.
+  - apply (Hstateless (ops1 ++ o :: ops2) D P). apply nc_stateless_dp; assumption.
   - (* GroupByKey *)
     cbn [par_bnode]. unfold run_gbk. rewrite check_tags_one. cbn [fst]. rewrite Nat.eqb_refl.
     cbn [omap_out obind map snd]. eexists. split; [reflexivity|]. cbn [rel dnode].
+    pose proof (gbk_matches_denote sh i [rows] Hsh) as Hm. cbn [map concat] in Hm.
+    rewrite app_nil_r in Hm. exact Hm.
+  - (* GroupByKey on a multiset: a fortiori *)
+    cbn [par_bnode]. unfold run_gbk. rewrite check_tags_one. cbn [fst]. rewrite Nat.eqb_refl.
+    cbn [omap_out obind map snd]. eexists. split; [reflexivity|]. cbn [dnode].
+    apply relD_of_perm.
     pose proof (gbk_matches_denote sh i [rows] Hsh) as Hm. cbn [map concat] in Hm.
     rewrite app_nil_r in Hm. exact Hm.
   - (* CombineValues on pairs *)
@@ -172,7 +188,7 @@ Lemma shape_denote : forall s steps t c m,
 Proof.
   intros s steps t c m Hshape.
   assert (Hsh : perm_oracle id_sh) by (intros i l; apply Permutation_refl).
-  destruct Hshape as [bs Hchain Hcls Hden|k rd u bl br bp cl cr Hchain Hl Hr Hp Hden].
+  destruct Hshape as [bs Hchain Hcls Hden|k rd u bl br bp cl cr Hchain Hl Hr Hfl Hfr Hp Hden].
   - (* linear *)
     rewrite Hchain, Hden.
     destruct (start_parts_rows (src_source s) m (src_source_coherent s)) as [Hct Hrows].
@@ -198,11 +214,13 @@ Proof.
     assert (Hcg : run_cogroup id_sh 0 k TKV TKV (join_tag k) X Y = Ok (join_tag k, rows)).
     { unfold run_cogroup. rewrite HXt, HYt. reflexivity. }
     assert (Hjoin : Permutation rows (d_join k (dchain bl (src_data s)) (dchain br rd))).
-    { apply join_exec_denote; [exact Hsh|eapply rel_perm; exact HXr|eapply rel_perm; exact HYr]. }
+    { apply join_exec_denote; [exact Hsh|eapply rel_perm; [exact Hfl|exact HXr]
+                                         |eapply rel_perm; [exact Hfr|exact HYr]]. }
     (* the normalising map and the rest *)
     assert (Hcls' : chain_cls (join_tag k) P
                               (BStateless [op_map (join_tag k) TKV join_norm u] :: bp) t c).
     { eapply cc_cons; [|exact Hp]. apply nc_stateless.
+      - exact I.
       - constructor; [apply ew_map|constructor].
       - cbn [tags_ok op_map mk_op op_in op_out]. rewrite Nat.eqb_refl. reflexivity. }
     assert (Hct0 : check_tags (join_tag k) [(join_tag k, rows)] = true)
